@@ -63,18 +63,22 @@ type c17Entry struct {
 
 type c17Scenario struct {
 	Label   string      `json:"label"`
-	Op      string      `json:"op"`    // rename | reid | rename+reid | setrunid | gc-cron | gc-del
+	Op      string      `json:"op"`    // start (the real start-up wrapper) | rename | reid | rename+reid (UpdateCheckpoint directly) | setrunid | gc-cron | gc-del
 	Local   string      `json:"local"` // checkpoint name the operation / the next start is configured with
 	IDs     []string    `json:"ids"`   // replication ids the source reports: [current, previous]
 	Hash    [][2]string `json:"hash"`  // index hash: id -> checkpoint name (insertion order)
 	Entries []c17Entry  `json:"entries"`
 	Extra   []int       `json:"extra,omitempty"` // databases that hold an unrelated key
 	CrashAt int         `json:"crash_at"`        // the target dies after this many requests of the operation; -1 = never
+	Fault   string      `json:"fault,omitempty"` // what happens at crash_at: "" the target dies and the tool with it | "error-reply": request crash_at+1 is answered with an error, target and tool live on | "crash-revive": the target dies, comes back 2 s later, the tool lives on (its own retries run)
 	Order   string      `json:"order,omitempty"` // database visiting order of the operation (observed; required on replay)
 	ROrder  string      `json:"recovery_order,omitempty"`
 }
 
 func (s c17Scenario) kind() string {
+	if s.Fault != "" {
+		return "setrunid-retry"
+	}
 	if !strings.HasPrefix(s.Op, "gc") {
 		return "rekey"
 	}
@@ -99,6 +103,7 @@ type c17Obs struct {
 	R         int // target requests the operation issued (until the crash)
 	crashed   bool
 	order     string
+	firstTry  string // visiting order of the operation's first attempt
 	rorder    string
 	opErr     string
 	bootErr   string
@@ -106,6 +111,8 @@ type c17Obs struct {
 	recLog    []string
 	writes    int
 	dump      string
+	after2    c17Pos // position found by a second start, after the first one went on under the current id (SetRunId)
+	rec2Log   []string
 	gcLost    []string // newest entries of reported ids that the operation removed
 	nDB       int
 	beforeDBs []int // databases that tie exactly (same offset, same mtime) for the position held before
@@ -298,10 +305,18 @@ func c17Exec(t *testing.T, scn c17Scenario) (o c17Obs) {
 		// ---- the operation, with the crash point
 		seq0 := tgt.NumReqs()
 		if scn.CrashAt >= 0 {
-			tgt.PlanRef().CrashAfter = seq0 + scn.CrashAt
+			switch scn.Fault {
+			case "error-reply":
+				tgt.PlanRef().FailAt = map[int]string{seq0 + scn.CrashAt + 1: "ERR injected failure"}
+			default:
+				tgt.PlanRef().CrashAfter = seq0 + scn.CrashAt
+			}
 		}
 		var opErr error
 		switch scn.Op {
+		case "start":
+			// what syncer.newOutput runs before it builds the output
+			_, opErr = syncer.VerifUpdateCheckpoint(outCfg, scn.Local, scn.IDs)
 		case "rename", "reid", "rename+reid", "noop":
 			cli, err := client.NewRedis(outCfg)
 			if err != nil {
@@ -312,7 +327,16 @@ func c17Exec(t *testing.T, scn c17Scenario) (o c17Obs) {
 			cli.Close()
 		case "setrunid":
 			ro := syncer.NewRedisOutput(c17OutputCfg(scn.Local, scn.IDs[1]))
-			opErr = ro.SetRunId(ctx, scn.IDs[0])
+			if scn.Fault == "crash-revive" && scn.CrashAt >= 0 {
+				// the tool lives on: SetRunId's own retries (3 attempts, about 4 s apart) meet the target again
+				done := make(chan error, 1)
+				go func() { done <- ro.SetRunId(ctx, scn.IDs[0]) }()
+				time.Sleep(2 * time.Second)
+				tgt.Revive()
+				opErr = <-done
+			} else {
+				opErr = ro.SetRunId(ctx, scn.IDs[0])
+			}
 		case "gc-cron":
 			NewSyncerCmd().gcStaleCheckpoint(ctx)
 		case "gc-del":
@@ -339,6 +363,18 @@ func c17Exec(t *testing.T, scn c17Scenario) (o c17Obs) {
 		o.R = len(opReqs)
 		o.crashed = tgt.Crashed()
 		o.order = c17Signature(opReqs)
+		o.firstTry = o.order
+		if scn.Fault != "" && scn.CrashAt >= 0 {
+			// the tool survives and retries: only the requests of its first attempt show the visiting order that is being enumerated
+			n := scn.CrashAt
+			if scn.Fault == "error-reply" {
+				n++
+			}
+			if n > len(opReqs) {
+				n = len(opReqs)
+			}
+			o.firstTry = c17Signature(opReqs[:n])
+		}
 		o.opLog = c17Strs(opReqs)
 		for _, r := range opReqs {
 			if r.Executed && !r.Failed {
@@ -348,10 +384,11 @@ func c17Exec(t *testing.T, scn c17Scenario) (o c17Obs) {
 				}
 			}
 		}
-		if scn.CrashAt >= 0 && scn.CrashAt < o.R {
+		if scn.CrashAt >= 0 && scn.Fault == "" && scn.CrashAt < o.R {
 			o.machinery = fmt.Sprintf("double: %d requests processed although the crash point was %d", o.R, scn.CrashAt)
 			return
 		}
+		tgt.PlanRef().FailAt = nil
 		if !o.crashed && opErr != nil && scn.CrashAt < 0 {
 			o.machinery = "" // a failing operation on a healthy target is judged below through the position
 		}
@@ -401,25 +438,34 @@ func c17Exec(t *testing.T, scn c17Scenario) (o c17Obs) {
 		// ---- the next start (a restart takes time)
 		time.Sleep(time.Second)
 		seq1 := tgt.NumReqs()
-		o.after = func() c17Pos {
-			cli, err := client.NewRedis(outCfg)
+		var ro *syncer.RedisOutput
+		start := func() c17Pos {
+			runID, err := syncer.VerifUpdateCheckpoint(outCfg, scn.Local, scn.IDs)
 			if err != nil {
-				return c17Pos{Err: "connect: " + err.Error()}
+				return c17Pos{Err: "updateCheckpoint: " + err.Error()}
 			}
-			err = checkpoint.UpdateCheckpoint(cli, scn.Local, scn.IDs)
-			cli.Close()
-			if err != nil {
-				return c17Pos{Err: "UpdateCheckpoint: " + err.Error()}
-			}
-			ro := syncer.NewRedisOutput(c17OutputCfg(scn.Local, scn.IDs[0]))
+			ro = syncer.NewRedisOutput(c17OutputCfg(scn.Local, runID))
 			sp, err := ro.StartPoint(ctx, scn.IDs)
 			if err != nil {
 				return c17Pos{Err: "StartPoint: " + err.Error()}
 			}
 			return c17Pos{None: sp.IsInitial() || sp.Offset < 0, Offset: sp.Offset, DB: sp.DbId, RunID: sp.RunId}
-		}()
-		recReqs := tgt.Log()[seq1:]
-		o.rorder = c17Signature(recReqs)
+		}
+		o.after = start()
+		recEnd := tgt.NumReqs()
+		// the source grants PSYNC: the run goes on under the source's current id, then stops; one more start
+		o.after2 = o.after
+		if o.after.Err == "" && !o.after.None && ro != nil {
+			if err := ro.SetRunId(ctx, scn.IDs[0]); err != nil {
+				o.after2 = c17Pos{Err: "SetRunId after the start: " + err.Error()}
+			} else {
+				time.Sleep(time.Second)
+				o.after2 = start()
+			}
+		}
+		o.rec2Log = c17Strs(tgt.Log()[recEnd:])
+		recReqs := tgt.Log()[seq1:recEnd]
+		o.rorder = c17Signature(tgt.Log()[seq1:]) // both starts and the SetRunId in between: their visiting orders decide what the second start finds
 		o.recLog = c17Strs(recReqs)
 		o.dump = tgt.Dump()
 		if len(tgt.MachineryErrors) > 0 {
@@ -469,18 +515,27 @@ func c17Judge(scn c17Scenario, o c17Obs) mc.Result {
 		return mc.Violation("garbage collection removed the newest checkpoint of a replication id the source still reports", "C17:gc-removed-newest", d)
 	}
 	if !o.before.None {
-		switch {
-		case o.after.Err != "":
-			return mc.Violation("after the operation the next start fails on a healthy target instead of finding the resume position", "C17:next-start-error:"+kind, detail())
-		case o.after.None:
-			return mc.Violation("the next start finds no resume position although one existed before the operation", "C17:position-lost:"+kind, detail())
-		case o.after.Offset < o.before.Offset:
-			return mc.Violation("the next start finds a smaller resume position than the one held before the operation", "C17:position-regressed:"+kind, detail())
-		case !c17In(o.beforeDBs, o.after.DB):
-			return mc.Violation("the next start finds the resume position in another target database than the one that held it before the operation", "C17:db-changed:"+kind, detail())
+		for i, after := range []c17Pos{o.after, o.after2} {
+			which := "the next start"
+			d := detail()
+			if i == 1 {
+				which = "the start after the next one (the run in between went on under the source's current id)"
+				d["position_after_second_restart"] = after
+				d["second_start_requests"] = o.rec2Log
+			}
+			switch {
+			case after.Err != "":
+				return mc.Violation("after the operation "+which+" fails on a healthy target instead of finding the resume position", "C17:next-start-error:"+kind, d)
+			case after.None:
+				return mc.Violation(which+" finds no resume position although one existed before the operation", "C17:position-lost:"+kind, d)
+			case after.Offset < o.before.Offset:
+				return mc.Violation(which+" finds a smaller resume position than the one held before the operation", "C17:position-regressed:"+kind, d)
+			case !c17In(o.beforeDBs, after.DB):
+				return mc.Violation(which+" finds the resume position in another target database than the one that held it before the operation", "C17:db-changed:"+kind, d)
+			}
 		}
 	}
-	obs := mc.Hash(scn.Label, scn.Op, strconv.Itoa(scn.CrashAt), c17MaskMtime(o.dump), fmt.Sprintf("%v/%d/%d", o.after.None, o.after.Offset, o.after.DB))
+	obs := mc.Hash(scn.Label, scn.Op, scn.Fault, strconv.Itoa(scn.CrashAt), c17MaskMtime(o.dump), fmt.Sprintf("%v/%d/%d", o.after.None, o.after.Offset, o.after.DB))
 	// non-trivial: a position existed before and the operation changed the target
 	return mc.OK(obs, !o.before.None && o.writes > 0, o.R+len(o.recLog))
 }
@@ -558,13 +613,20 @@ func c17Scenarios(tier string) []c17Scenario {
 			lab := lay.name + "/" + pat.name
 			staleZ := c17Entry{DB: 0, Name: c17NameOld, ID: c17IDZ, Offset: 7777, AgeNs: int64(48 * time.Hour)}
 			// (a) rename: the index points to the old name
-			add(c17Scenario{Label: lab, Op: "rename", Local: c17NameNew, Hash: [][2]string{{c17IDA, c17NameOld}}, Entries: mk(c17NameOld, c17IDA), Extra: lay.extra})
+			add(c17Scenario{Label: lab, Op: "start", Local: c17NameNew, Hash: [][2]string{{c17IDA, c17NameOld}}, Entries: mk(c17NameOld, c17IDA), Extra: lay.extra})
 			// (b) re-id after a source failover, directly and through RedisOutput.SetRunId
 			add(c17Scenario{Label: lab, Op: "reid", Local: c17NameOld, Hash: [][2]string{{c17IDB, c17NameOld}}, Entries: mk(c17NameOld, c17IDB), Extra: lay.extra})
 			add(c17Scenario{Label: lab, Op: "setrunid", Local: c17NameOld, Hash: [][2]string{{c17IDB, c17NameOld}}, Entries: mk(c17NameOld, c17IDB), Extra: lay.extra})
-			add(c17Scenario{Label: lab, Op: "rename+reid", Local: c17NameNew, Hash: [][2]string{{c17IDB, c17NameOld}}, Entries: mk(c17NameOld, c17IDB), Extra: lay.extra})
+			// the real start-up wrapper on a checkpoint stored under the source's previous id: same name (nothing to do, no
+			// re-id before the source has answered PSYNC) and a new name (rename under the previous id)
+			add(c17Scenario{Label: lab + "/stored-under-second-id", Op: "start", Local: c17NameOld, Hash: [][2]string{{c17IDB, c17NameOld}}, Entries: mk(c17NameOld, c17IDB), Extra: lay.extra})
+			add(c17Scenario{Label: lab + "/stored-under-second-id", Op: "start", Local: c17NameNew, Hash: [][2]string{{c17IDB, c17NameOld}}, Entries: mk(c17NameOld, c17IDB), Extra: lay.extra})
+			if tier == "thorough" {
+				// UpdateCheckpoint renaming and re-keying in one go (not what a start does any more)
+				add(c17Scenario{Label: lab, Op: "rename+reid", Local: c17NameNew, Hash: [][2]string{{c17IDB, c17NameOld}}, Entries: mk(c17NameOld, c17IDB), Extra: lay.extra})
+			}
 			// stale entry of an unreported id next to the live one
-			add(c17Scenario{Label: lab + "/stale-id", Op: "rename", Local: c17NameNew, Hash: [][2]string{{c17IDZ, c17NameOld}, {c17IDA, c17NameOld}}, Entries: append(mk(c17NameOld, c17IDA), staleZ), Extra: lay.extra})
+			add(c17Scenario{Label: lab + "/stale-id", Op: "start", Local: c17NameNew, Hash: [][2]string{{c17IDZ, c17NameOld}, {c17IDA, c17NameOld}}, Entries: append(mk(c17NameOld, c17IDA), staleZ), Extra: lay.extra})
 			add(c17Scenario{Label: lab + "/stale-id", Op: "reid", Local: c17NameOld, Hash: [][2]string{{c17IDZ, c17NameOld}, {c17IDB, c17NameOld}}, Entries: append(mk(c17NameOld, c17IDB), staleZ), Extra: lay.extra})
 			// old and new ids both present. Only shapes a run can leave behind are used:
 			// a re-id writes a copy of the newest entry under the new id, then repoints the
@@ -591,10 +653,11 @@ func c17Scenarios(tier string) []c17Scenario {
 					add(c17Scenario{Label: l2 + "/index-old", Op: "reid", Local: c17NameOld, Hash: [][2]string{{c17IDB, c17NameOld}}, Entries: copyIn(db, old[best].Offset), Extra: lay.extra})
 					// interrupted after the index was repointed
 					add(c17Scenario{Label: l2 + "/index-both", Op: "reid", Local: c17NameOld, Hash: both, Entries: copyIn(db, old[best].Offset), Extra: lay.extra})
-					add(c17Scenario{Label: l2 + "/index-both", Op: "rename", Local: c17NameNew, Hash: both, Entries: copyIn(db, old[best].Offset), Extra: lay.extra})
+					add(c17Scenario{Label: l2 + "/index-old", Op: "start", Local: c17NameNew, Hash: [][2]string{{c17IDB, c17NameOld}}, Entries: copyIn(db, old[best].Offset), Extra: lay.extra})
+					add(c17Scenario{Label: l2 + "/index-both", Op: "start", Local: c17NameNew, Hash: both, Entries: copyIn(db, old[best].Offset), Extra: lay.extra})
 				}
 				// progress was made under the new id afterwards
-				add(c17Scenario{Label: lab + "/both-ids(progressed)/index-both", Op: "rename", Local: c17NameNew, Hash: both, Entries: copyIn(old[best].DB, old[best].Offset+100), Extra: lay.extra})
+				add(c17Scenario{Label: lab + "/both-ids(progressed)/index-both", Op: "start", Local: c17NameNew, Hash: both, Entries: copyIn(old[best].DB, old[best].Offset+100), Extra: lay.extra})
 			}
 			// the index already points to the new name; a leftover copy under the old name
 			left := mk(c17NameOld, c17IDA)
@@ -606,9 +669,9 @@ func c17Scenarios(tier string) []c17Scenario {
 		}
 	}
 	// nothing stored yet
-	add(c17Scenario{Label: "empty", Op: "rename", Local: c17NameNew})
+	add(c17Scenario{Label: "empty", Op: "start", Local: c17NameNew})
 	add(c17Scenario{Label: "empty", Op: "setrunid", Local: c17NameOld})
-	add(c17Scenario{Label: "empty+other1", Op: "rename", Local: c17NameNew, Extra: []int{1}})
+	add(c17Scenario{Label: "empty+other1", Op: "start", Local: c17NameNew, Extra: []int{1}})
 
 	// (c) garbage collection: every entry's mtime just before / at / just after the threshold
 	S := int64(c17Stale)
@@ -648,13 +711,18 @@ func c17Scenarios(tier string) []c17Scenario {
 					an = append(an, a.n)
 				}
 				lab := fmt.Sprintf("%s/%s/mtime:%s", lay.name, strings.TrimSuffix(pat.name, "-newest-first"), strings.Join(an, ","))
-				add(c17Scenario{Label: lab, Op: "gc-cron", Local: c17NameOld, Hash: [][2]string{{c17IDA, c17NameOld}}, Entries: es, Extra: lay.extra})
-				if c%4 == 0 {
+				// quick tier: with three databases (3^3 mtime positions x ~275 executions each) every family takes
+				// every third combination, shifted against each other; the thorough tier takes them all
+				thin := func(shift int) bool { return tier != "thorough" && k >= 3 && (c+shift)%3 != 0 }
+				if !thin(0) {
+					add(c17Scenario{Label: lab, Op: "gc-cron", Local: c17NameOld, Hash: [][2]string{{c17IDA, c17NameOld}}, Entries: es, Extra: lay.extra})
+				}
+				if c%4 == 0 && !thin(0) {
 					// an unreported id sharing the checkpoint key, all of it stale
 					z := c17Entry{DB: lay.dbs[0], Name: c17NameOld, ID: c17IDZ, Offset: 7777, AgeNs: S + int64(time.Hour)}
 					add(c17Scenario{Label: lab + "/stale-id", Op: "gc-cron", Local: c17NameOld, Hash: [][2]string{{c17IDA, c17NameOld}, {c17IDZ, c17NameOld}}, Entries: append(append([]c17Entry(nil), es...), z), Extra: lay.extra})
 				}
-				if c%5 == 0 {
+				if c%5 == 0 && !thin(0) {
 					add(c17Scenario{Label: lab, Op: "gc-del", Local: c17NameOld, Hash: [][2]string{{c17IDA, c17NameOld}}, Entries: es, Extra: lay.extra})
 				}
 				// the stored checkpoint's id is what the source reports as its SECOND id (master_replid2):
@@ -666,11 +734,13 @@ func c17Scenarios(tier string) []c17Scenario {
 					}
 					return o
 				}
-				add(c17Scenario{Label: lab + "/stored-under-second-id", Op: "gc-cron", Local: c17NameOld, Hash: [][2]string{{c17IDB, c17NameOld}}, Entries: withID(c17IDB), Extra: lay.extra})
-				if c%5 == 0 {
+				if !thin(1) {
+					add(c17Scenario{Label: lab + "/stored-under-second-id", Op: "gc-cron", Local: c17NameOld, Hash: [][2]string{{c17IDB, c17NameOld}}, Entries: withID(c17IDB), Extra: lay.extra})
+				}
+				if c%5 == 0 && !thin(1) {
 					add(c17Scenario{Label: lab + "/stored-under-second-id", Op: "gc-del", Local: c17NameOld, Hash: [][2]string{{c17IDB, c17NameOld}}, Entries: withID(c17IDB), Extra: lay.extra})
 				}
-				if c%4 == 0 {
+				if c%4 == 0 && !thin(2) {
 					// both reported ids hold entries (an interrupted re-id): the second id's entries as enumerated,
 					// a copy of its newest entry under the current id in the same database, written last (most recent mtime)
 					old := withID(c17IDB)
@@ -690,7 +760,7 @@ func c17Scenarios(tier string) []c17Scenario {
 					cp := c17Entry{DB: old[best].DB, Name: c17NameOld, ID: c17IDA, Offset: old[best].Offset, AgeNs: young - 1}
 					add(c17Scenario{Label: lab + "/stored-under-both-ids", Op: "gc-cron", Local: c17NameOld, Hash: [][2]string{{c17IDB, c17NameOld}, {c17IDA, c17NameOld}}, Entries: append(old, cp), Extra: lay.extra})
 				}
-				if c%6 == 0 {
+				if c%6 == 0 && !thin(0) {
 					// the stored id is neither of the reported ones: everything stale may go, nothing else may break
 					add(c17Scenario{Label: lab + "/stored-under-unreported-id", Op: "gc-cron", Local: c17NameOld, Hash: [][2]string{{c17IDZ, c17NameOld}}, Entries: withID(c17IDZ), Extra: lay.extra})
 				}
@@ -759,6 +829,7 @@ func runC17(t *testing.T, rep *mc.Reporter) {
 	report := func(scn c17Scenario, o c17Obs) {
 		scn.Order, scn.ROrder = o.order, o.rorder
 		res := c17Judge(scn, o)
+		rep.Count(fmt.Sprintf("execs_%s_%ddb", scn.Op, o.nDB), 1)
 		if res.Verdict == "violation" {
 			sigSeen[res.Sig]++
 			if sigSeen[res.Sig] <= 2 {
@@ -791,7 +862,13 @@ func runC17(t *testing.T, rep *mc.Reporter) {
 		rep.Exec(scn, nil, res)
 	}
 	idx := 0
+	if os.Getenv("VERIF_ALLVIOL") != "" { // debugging aid: keep every violation record
+		rep.MaxPerSig = 1 << 30
+	}
 	runC17Bisync(t, rep, budget, &idx)
+	if os.Getenv("VERIF_ONLY") == "mode-switch" { // debugging aid
+		return
+	}
 	for _, base := range c17Scenarios(tier) {
 		idx++
 		if idx%nshards != shard {
@@ -828,9 +905,16 @@ func runC17(t *testing.T, rep *mc.Reporter) {
 		}
 		sort.Strings(plist)
 		// ---- phase 2: every crash prefix, under every visiting order seen above
-		for k := 0; k < R; k++ {
+		faults := []string{""}
+		if base.Op == "setrunid" {
+			// the tool survives the fault and SetRunId's own retry meets a live target
+			faults = append(faults, "error-reply", "crash-revive")
+		}
+		for kf := 0; kf < R*len(faults); kf++ {
+			k := kf % R
 			scn := base
 			scn.CrashAt = k
+			scn.Fault = faults[kf/R]
 			need := map[string]bool{}
 			for _, p := range plist {
 				need[p] = true
@@ -841,7 +925,7 @@ func runC17(t *testing.T, rep *mc.Reporter) {
 				if o.machinery != "" {
 					return
 				}
-				got := c17FirstLoop(o.order, nDB)
+				got := c17FirstLoop(o.firstTry, nDB)
 				for p := range need {
 					if strings.HasPrefix(p, got) {
 						delete(need, p)
